@@ -447,3 +447,30 @@ def map_contains_scans_past_incomparable_keys(p: int, j: int, third: int) -> boo
         q = keys[j]
         absent = _DTD(seconds=60)
     return ev(T['scan_keys'], m=m, q=q, absent=absent) == [True, True, 3, 3, False]
+
+
+T.update(parse_all({'het_ops': '(sum($m?*), count(map:for-each($m, function($k, $v) { $v })), map:size(map:remove($m, ($q, $r))), '
+                               'map:contains(map:remove($m, ($q, $r)), $s), map:contains(map:remove($m, ($q, $r)), $q), '
+                               'count(map:keys($m)), map:size($m), map:contains($m, $q) and map:contains($m, $r) and map:contains($m, $s))'}))
+
+
+@ob(budget=150, tbudget=900, kind='hunt', bound='the same 3-entry maps with xs:time / xs:date / integer-or-string keys (6 orders x 3 rotations of the keys x 2 third-key kinds chosen by '
+                      'the solver): ?*, map:for-each and map:remove of two of the three keys (a key of an incomparable type among those removed '
+                      'or kept) agree with the dict model and leave the operand unchanged.  map:get / map:put / map:merge on such maps look a '
+                      'key up in a dict holding both kinds: CrossHair dict model raises the TypeError itself (SPURIOUS), so they are outside',
+    funcs=[F31 + ':map:remove', F31 + ':map:for-each', 'elementpath/xpath31/_xpath31_operators.py:LookupOperatorToken.select',
+           'elementpath/helpers.py:not_equal'])
+def map_functions_on_incomparable_keys(p: int, j: int, third: int) -> bool:
+    """
+    pre: 0 <= p <= 5 and 0 <= j <= 2 and 0 <= third <= 1
+    post: _
+    """
+    p = [k for k in range(6) if k == p][0]
+    j = [k for k in range(3) if k == j][0]
+    third = 1 if third == 1 else 0
+    with _NoTracing():
+        keys = (_Time(10, 0, 0), _Date(2020, 1, 1), 7 if third == 0 else 'k')
+        order = _PERMS3[p]
+        m = XPathMap(_P31, [(keys[i], i) for i in order])
+        q, r, s = keys[j], keys[(j + 1) % 3], keys[(j + 2) % 3]
+    return ev(T['het_ops'], m=m, q=q, r=r, s=s) == [3, 3, 1, True, False, 3, 3, True]
